@@ -38,7 +38,13 @@
 (*        collection (pdh mode: with a matching one)                       *)
 (* Silent in the statement, unconstrained here: which backends are asked   *)
 (* and when; what happens when the local cluster has the collection or     *)
-(* fails; the kind of error reported; answers arriving after GetDone.      *)
+(* fails (the statement is about collections "fetched from a remote        *)
+(* cluster": a collection the local cluster itself returned may be handed  *)
+(* over as it is, verified - Conn.CollectionGet - or not - the legacy      *)
+(* fetchRemoteCollectionByPDH); the kind of error reported; answers        *)
+(* arriving after GetDone.  Two code paths are bound to this contract:     *)
+(* federation.Conn.CollectionGet and the legacy controller handlers        *)
+(* fetchRemoteCollectionByPDH / fetchRemoteCollectionByUUID.               *)
 (***************************************************************************)
 EXTENDS Integers, Sequences, FiniteSets
 
@@ -67,8 +73,9 @@ Sent(b) == IF cfg.mode = "pdh" THEN ans[b] = "match" ELSE ans[b] \in {"match", "
 
 GetDone(ok, pdhOK, rel) ==
     /\ done = "no"
-    /\ ok => /\ cfg.mode = "pdh" => pdhOK                                   \* (a)
-             /\ \E b \in 0 .. cfg.n : Sent(b) /\ rel[b + 1]                 \* (a), (c)
+    /\ ok => \/ \E b \in 1 .. cfg.n : /\ Sent(b) /\ rel[b + 1]               \* (a), (c): from a remote
+                                       /\ cfg.mode = "pdh" => pdhOK
+             \/ ans[0] \in {"match", "mismatch"} /\ rel[1]                   \* the local cluster's own copy
     /\ (cfg.mode = "pdh" /\ ans[0] = "s404" /\ \E b \in 1 .. cfg.n : ans[b] = "match") => ok   \* (b)
     /\ done' = IF ok THEN "ok" ELSE "err"
     /\ UNCHANGED <<cfg, ans>>
